@@ -129,8 +129,20 @@ pub mod rust_decimal {
         #[verifier::external_body]
         pub fn checked_sub(self, o: Decimal) -> (r: Option<Decimal>) ensures r is Some ==> r->Some_0@ == self@ - o@ { unimplemented!() }
         #[verifier::external_body]
-        pub fn from_str(s: &str) -> (r: Result<Decimal, Error>) { unimplemented!() }
+        pub fn from_str(s: &str) -> (r: Result<Decimal, Error>)
+            ensures r is Ok <==> spec_parse(s@) is Some, r is Ok ==> r->Ok_0@ == spec_parse(s@)->Some_0
+        { unimplemented!() }
+        /// FromPrimitive: every i64 is representable (96-bit mantissa)
+        #[verifier::external_body]
+        pub fn from_i64(v: i64) -> (r: Option<Decimal>) ensures r is Some, r->Some_0@ == v as real { unimplemented!() }
+        #[verifier::external_body]
+        pub fn from_f64(v: f64) -> (r: Option<Decimal>)
+            ensures r is Some <==> spec_of_f64(v) is Some, r is Some ==> r->Some_0@ == spec_of_f64(v)->Some_0
+        { unimplemented!() }
     }
+    /// the number a text denotes for `Decimal::from_str` (None: not a number); a function of the text
+    pub uninterp spec fn spec_parse(s: Seq<char>) -> Option<real>;
+    pub uninterp spec fn spec_of_f64(v: f64) -> Option<real>;
     pub uninterp spec fn spec_round_dp_even(d: real, dp: u32) -> real;
     pub uninterp spec fn spec_trunc(d: real) -> real;
     pub uninterp spec fn spec_floor(d: real) -> real;
